@@ -257,7 +257,7 @@ func (n *Node) monBlockCertificate(b *Block) {
 		if cp == nil || cp.ViewNumber() != c.ViewNumber {
 			continue
 		}
-		if b.Verify(c.Validators[i], cp.GetCommit().Signature()) == nil && int(cp.ValidatorIndex()) == i {
+		if b.Verify(c.Validators[i], cp.GetCommit().Signature()) == nil && int(cp.ValidatorIndex()) == i && !cp.(*Payload).badWitness {
 			valid++
 		} else {
 			bad = append(bad, cp.(*Payload))
@@ -325,7 +325,7 @@ func (n *Node) monPreBlockCertificate(b *PreBlock) {
 		if cp == nil || cp.ViewNumber() != c.ViewNumber {
 			continue
 		}
-		if b.Verify(c.Validators[i], cp.GetPreCommit().Data()) == nil && int(cp.ValidatorIndex()) == i {
+		if b.Verify(c.Validators[i], cp.GetPreCommit().Data()) == nil && int(cp.ValidatorIndex()) == i && !cp.(*Payload).badWitness {
 			valid++
 		} else {
 			bad = append(bad, cp.(*Payload))
